@@ -1,6 +1,6 @@
 From Coq Require Extraction ExtrOcamlBasic.
 From Centro Require Import Base.Sx Model.MeasureC13 Model.EllipseCoordsC13 Model.EntryC18 Model.HullAreaC13
-  Model.Circle Model.CircleVec Model.Feret.
+  Model.Circle Model.CircleVec Model.Feret Model.HullAreaVecC13.
 Extraction Language OCaml.
 Extraction "extracted/c13.ml" entry_measure entry_idioms entry_ell_coords entry_median entry_hull_area
-  entry_chrystal_many entry_chrystal_vec entry_sweep_many.
+  entry_chrystal_many entry_chrystal_vec entry_sweep_many entry_hull_areas_vec.
